@@ -24,9 +24,14 @@ Cases == {[fam |-> "hostile", proto |-> p, limit |-> l, class |-> c, lenval |-> 
     \cup {[fam |-> "hostile", proto |-> "http", limit |-> l, class |-> cl, lenval |-> "-", variant |-> 1, expect |-> "robust"] :
              l \in Limits, cl \in {"duplen", "neglen"}}
 
+\* hostile REPLY bodies: the receiver has a call outstanding (a result struct with a fixed-size array, a slice and scalars)
+\* and the remote answers with a well-formed REPLY frame whose body, in the codec it names, is malformed in one of these
+\* ways; the caller must complete, the session must stay functional or end cleanly
+ReplyBodies == {[fam |-> "hostile", proto |-> "raw", limit |-> 65536, class |-> "replybody", lenval |-> bc, variant |-> v, codec |-> cd, expect |-> "robust"] :
+                  cd \in {"j", "x", "f", "s", "p"}, bc \in {"overflow", "wrongtype", "truncated", "random", "empty", "huge"}, v \in 1..1}
 VARIABLES c, done
 vars == <<c, done>>
-Init == c \in Cases /\ done = FALSE
+Init == c \in Cases \cup ReplyBodies /\ done = FALSE
 Run == ~done /\ done' = TRUE /\ UNCHANGED c
 Spec == Init /\ [][Run]_vars
 OracleSane == c.expect = "robust"
